@@ -718,6 +718,9 @@ def run(c):
   c.coverage_extra['configurations'] = [cfg.desc() for cfg in cfgs]
 
   if os.environ.get('VERIF_DEBUG'):
+    print('PROP-FAIL keys', dict(collections.Counter(v['key'] for v in c.violations)), {k: v[1] for k, v in c.known_hits.items()})
+    for v in c.violations[:40]:
+      print('  FAIL', v['key'], v['what'][:300], json.dumps(v['case'].get('config', {}), default=str)[:300] if isinstance(v['case'], dict) else '')
     for b in c.tie_breaks[:12]:
       print('TIE-BREAK', b['where'], json.dumps(b['case'], default=str)[:400], '\n   real=', json.dumps(b['real'], default=str)[:500],
             '\n   model=', json.dumps(b['model'], default=str)[:500])
